@@ -57,6 +57,8 @@ def gen_case(rng, tier, idx):
         pr, info = streams.inject_degenerate(rng, pr, lb + 1)
     ts = streams.timestamps(rng, n, step, mode, tf_s, max_gap_buckets=15)
     rows = streams.rows_from(pr, ts)
+    if tfkind != "none" and rng.random() < 0.1:
+        streams.add_subsecond(rng, rows)
     sch = schedules.rand_schedule(rng, n, bucket=(tf_s // step if tf_s else None))
     return {"cfg": cfg, "rows": rows, "schedule": sch, "family": fam, "tfkind": tfkind, "window": info}
 
